@@ -1747,3 +1747,37 @@ def replay_iter_refusal(model, obligation, function, scale, border, ok):
     want = (size + 2 * (4 if border is None else int(border))) * int(scale)
     bad = len(rows) != want or any(len(r) != want for r in rows)
     return dict(confirmed=bad, call=call, detail='%d rows, expected %d' % (len(rows), want))
+
+
+def replay_iter_kernel(model, obligation, function):
+    """native: scaling / quiet zone structure of utils.matrix_iter(_verbose) on real symbols for the model's scale / border and a small grid"""
+    from segno import utils, consts as c
+    m = model or {}
+    grid = [(m.get('scale', 1), m.get('border'))] + [(s, b) for s in (1, 2, 3, 5) for b in (None, 0, 1, 2, 4, 7)]
+    for content, kw in (('1', dict(micro=True)), ('Hello', dict(micro=False)), ('version seven', dict(version=7))):
+        qr = segno.make(content, **kw)
+        size = len(qr.matrix)
+        for s, b in grid:
+            if not isinstance(s, int) or s < 1 or (b is not None and (not isinstance(b, int) or b < 0)) or s > 50 or (b or 0) > 50:
+                continue
+            be = b if b is not None else (2 if qr.is_micro else 4)
+            call = 'utils.%s(<%s>.matrix, (%d, %d), scale=%r, border=%r)' % (function, qr.designator, size, size, s, b)
+            try:
+                rows = [tuple(r) for r in getattr(utils, function)(qr.matrix, (size, size), scale=s, border=b)]
+                base = [tuple(r) for r in getattr(utils, function)(qr.matrix, (size, size), scale=1, border=0)]
+            except Exception as ex:
+                return dict(confirmed=True, call=call, detail='raised %r' % (ex,))
+            n = (size + 2 * be) * s
+            if len(rows) != n or any(len(r) != n for r in rows):
+                return dict(confirmed=True, call=call, detail='%d rows of lengths %r, expected %d x %d' % (len(rows), sorted(set(map(len, rows)))[:3], n, n))
+            quiet = c.TYPE_QUIET_ZONE if function == 'matrix_iter_verbose' else 0
+            for y in range(n):
+                i = y // s - be
+                for x in range(n):
+                    j = x // s - be
+                    want = base[i][j] if 0 <= i < size and 0 <= j < size else quiet
+                    if function == 'matrix_iter' and 0 <= i < size and 0 <= j < size:
+                        want = qr.matrix[i][j]
+                    if rows[y][x] != want:
+                        return dict(confirmed=True, call=call, detail='entry (row %d, column %d) is %r, module (%d, %d) gives %r' % (y, x, rows[y][x], i, j, want))
+    return dict(confirmed=False, detail='structure as specified on the tried symbols / scales / borders')
